@@ -152,6 +152,9 @@ func drawMod(r *rand.Rand) mod {
 		return mod{"WithoutOption", dhcpv4.WithoutOption(dhcpv4.GenericOptionCode(c)), func(m *ref4.P4) { delete(m.Opts, c) }, fmt.Sprint("without ", c)}
 	case 11:
 		t := byte(1 + r.UintN(8))
+		if r.IntN(4) == 0 { // a message type is an octet: the ones without a name too (0 = "none", 255)
+			t = []byte{0, 0, 255, 9, 18}[r.IntN(5)]
+		}
 		return mod{"WithMessageType", dhcpv4.WithMessageType(dhcpv4.MessageType(t)), func(m *ref4.P4) { m.Opts[53] = []byte{t} }, fmt.Sprint("type=", t)}
 	case 12:
 		var cs []byte
@@ -265,6 +268,18 @@ func drawInput(r *rand.Rand) (*dhcpv4.DHCPv4, string) {
 		case 2:
 			p.Options[c] = nil
 		}
+	}
+	// the options that describe the requester's limits and wishes, which a builder has no business acting on: maximum
+	// message size (57) from 0 to 65535, parameter request list, requested lease time, overload
+	if r.IntN(3) == 0 {
+		v := []uint16{0, 1, 240, 300, 548, 576, 1500, 65535}[r.IntN(8)]
+		p.Options[57] = []byte{byte(v >> 8), byte(v)}
+		if r.IntN(2) == 0 {
+			p.Options[82] = gen4.AgentInfo(r, []int{12, 60, 200, 255, 340, 600}[r.IntN(6)])
+		}
+	}
+	if r.IntN(6) == 0 {
+		p.Options[52] = []byte{byte(1 + r.UintN(3))}
 	}
 	normInput(p)
 	return p, "generated"
